@@ -92,6 +92,27 @@ pub unsafe extern "C" fn rs_arc_strong(p: *const Tracked) -> usize {
 pub extern "C" fn rs_arc_clone(a: &CArc<Tracked>) -> CArc<Tracked> {
     a.clone()
 }
+/// an arc made by the C side (its own instance, clone and release functions): Rust clones it `k` times,
+/// converts some clones to the non-empty form and back, and releases everything
+#[no_mangle]
+pub extern "C" fn rs_arc_foreign_roundtrip(a: CArc<c_void>, k: u32) -> u32 {
+    let mut held = vec![];
+    for i in 0..k {
+        let c = a.clone();
+        if i % 2 == 0 {
+            match c.transpose() {
+                Some(s) => { let s2 = s.clone(); held.push(CArc::from(Some(s))); held.push(CArc::from(Some(s2))); }
+                None => return u32::MAX,
+            }
+        } else {
+            held.push(c);
+        }
+    }
+    let n = held.len() as u32;
+    drop(held);
+    drop(a);
+    n
+}
 #[no_mangle]
 pub extern "C" fn rs_take_arc(a: CArc<Tracked>) -> u64 {
     let id = a.as_ref().map(|t| t.touch()).unwrap_or(u64::MAX);
